@@ -39,6 +39,10 @@ func (vt *Model) osc(data string) {
 			vt.pty.WriteString(resp)
 		}
 	case "52":
+		if vt.vx == nil {
+			// Not drawn yet, there is no host to pass this on to
+			return
+		}
 		_, val, _ := cutString(val, ";")
 		decodedBytes, err := base64.StdEncoding.DecodeString(val)
 		if err != nil {
